@@ -17,6 +17,8 @@ from __future__ import annotations
 
 import ast
 
+from flow import BaseClient, function_exits
+
 from common import AnalysisError, Finding, norm
 from repo import call_name, kw, lit
 
@@ -474,6 +476,46 @@ def g13(repo, res):
 SHALLOW_IDIOMS = ("__dict__.update(self.__dict__)", "self.__dict__.copy()", "dict(self.__dict__)", "copy.copy(self)", "copy(self)")
 
 
+class _PendingClient(BaseClient):
+    """typestate of the lazy style getter: CLEARED = the pending constructor arguments were forgotten, APPLIED = they were applied"""
+    def __init__(self, attr):
+        self.attr = attr
+
+    def call_may_raise(self, call):
+        return isinstance(call.func, ast.Attribute) and call.func.attr in ("update", "__init__")
+
+    def transfer(self, s, S):
+        for c in ast.walk(s):
+            if isinstance(c, ast.Call) and isinstance(c.func, ast.Attribute) and c.func.attr == "update":
+                S = (S - {"CLEARED"}) | {"APPLIED"}
+        if isinstance(s, ast.Assign):
+            for t in s.targets:
+                if isinstance(t, ast.Attribute) and t.attr == self.attr and isinstance(t.value, ast.Name) and t.value.id == "self":
+                    empty = isinstance(s.value, ast.Dict) and not s.value.keys
+                    if empty and "APPLIED" not in S:
+                        S = S | {"CLEARED"}
+                    elif not empty:
+                        S = S - {"CLEARED"}          # the arguments are put back
+        return S
+
+
+def g13b(repo, res):
+    """G13b an invalid constructor style argument is rejected on *every* access: on no exceptional exit of the `style` getter have the
+    pending arguments been forgotten without having been applied (otherwise the first access raises and the second silently succeeds
+    with the invalid argument dropped - the same getB(..., output='dataframe') / show() call then behaves differently when repeated)"""
+    geo = repo.cls("BaseGeo")
+    fn = geo.getters.get("style")
+    res.require(fn is not None, "anchor vanished: BaseGeo.style getter")
+    exits, nst = function_exits(fn, _PendingClient("_style_kwargs"))
+    bad = [(k, n) for k, S, n in exits if k in ("exc", "raise") and "CLEARED" in S]
+    res.evaluations += len(exits)
+    res.ob("G13b:rejected style arguments stay pending", not bad, {"rule": "G13b", "exits_examined": len(exits), "exits_with_forgotten_arguments": len(bad)})
+    if bad:
+        k, n = bad[0]
+        res.add(Finding("G13b", geo.mod.rel, "BaseGeo.style (getter)", n, f"on {len(bad)} exceptional exit(s) the pending constructor style arguments have been cleared but not "
+                        "applied: the rejection happens once, the next access succeeds with the invalid argument silently dropped", n.lineno))
+
+
 def g14(repo, res, rule="G14"):
     """G14 a style/property tree is copied deeply: MagicProperties.copy() returns deepcopy(self) or an object rebuilt from as_dict();
     recognised shallow idioms (sharing the nested property objects) are a violation, any other form is reported undecided"""
@@ -525,7 +567,7 @@ def g15(repo, res):
 
 def run(repo, res, tier):
     res.rules = ["G1 reset/DEFAULTS vs property tree", "G2 alias-free properties", "G3 leaf setters validate", "G4 no caller dict mutated/captured", "G5 precedence dataflow in get_style", "G6 no memoisation on the style path", "G7 temporary style removed on all exits", "G8 exact validation of style names", "G5b None-filters not truthiness", "REC-FWD style keywords forwarded through recursion", "G4b style setter adopts no foreign style object", "G10 no preset values in style constructors",
-                 "G12 generic families before specific ones", "G13 lazy style kwargs not bypassed", "G14 style copies are deep", "G15 show() flattens every style keyword", "G16 admitted-value tables are collections, not strings"]
+                 "G12 generic families before specific ones", "G13 lazy style kwargs not bypassed", "G13b rejected style kwargs stay pending", "G14 style copies are deep", "G15 show() flattens every style keyword", "G16 admitted-value tables are collections, not strings"]
     g1(repo, res)
     g2_g3(repo, res)
     import origin_rules
@@ -537,6 +579,7 @@ def run(repo, res, tier):
     g10(repo, res)
     g12(repo, res)
     g13(repo, res)
+    g13b(repo, res)
     g14(repo, res)
     g15(repo, res)
     import rules_domain
